@@ -4,7 +4,7 @@
    the commit of Model/Create.v).  The manifest *file name* (NNNN_<folder>_<UTC>Z.mhl) is not modelled: it is checked on
    the implementation by the oracle. *)
 From Coq Require Import Sorting.Sorted.
-From MHL Require Import Model.Commands Gen.Generated Proofs.BaseFacts Proofs.CommitFacts Proofs.HistFacts Proofs.FreshFacts Model.Naming Proofs.NamingFacts Proofs.TreeFacts Proofs.ReloadFacts Proofs.SfNestedFacts.
+From MHL Require Import Model.Commands Gen.Generated Proofs.BaseFacts Proofs.CommitFacts Proofs.HistFacts Proofs.FreshFacts Model.Naming Proofs.NamingFacts Proofs.TreeFacts Proofs.ReloadFacts Proofs.SfNestedFacts Gen.GeneratedFns Proofs.SourceLookupFacts.
 
 Theorem C06_commit_writes_after_commit : forall C cdig ser (old : hist C) doc p par,
   mkHist C (h_files C old ++ [mkMfile C (g_no doc) (ser doc) doc])
@@ -16,6 +16,11 @@ Theorem C06_new_number_is_latest_plus_one : forall C (old : hist C) proc nl recs
 Proof. exact new_doc_number_is. Qed.
 Theorem C06_increment_is_one : generation_increment = 1%N.
 Proof. reflexivity. Qed.
+(* `latest_generation_number` is not only transcribed: MHLHistory.latest_generation_number is translated from the current source
+   on every run (Gen/GeneratedFns.v: the loop, the truthiness test of the number, the assignment) and this is the model's *)
+Theorem C06_source_latest_generation_number_is_the_models : forall gens, src_latest_generation_number gens = latest_generation_number gens.
+Proof. exact src_latest_generation_number_is_model. Qed.
+Print Assumptions C06_source_latest_generation_number_is_the_models.
 
 (* a commit keeps every existing manifest, adds exactly one numbered n+1, keeps all earlier chain entries unchanged and
    in order and appends exactly one entry matching the new manifest; well-formedness is preserved *)
